@@ -5,4 +5,5 @@ import vdiff "verifharness/internal/diff"
 func init() {
 	replayers["diff"] = vdiff.Replay
 	recorders["diff"] = vdiff.Record
+	replayers["difffault"] = vdiff.ReplayFault
 }
